@@ -25,6 +25,8 @@ impl<'a> BerDecoder<'a> for SnmpReal {
         if h.is_empty() {
             return Ok(SnmpReal(0.0));
         }
+        // Contents octets of this element only
+        let i = &i[..h.length];
         // 8.5.6: Check encoding
         Ok(SnmpReal(match i[0] {
             f if f & 0x80 == 0x80 => {
@@ -41,18 +43,37 @@ impl<'a> BerDecoder<'a> for SnmpReal {
 
                 // 8.5.7.4 Bits 2 to 1 of the first contents octet
                 // shall encode the format of the exponent as follows:
-                let ln = (f & 0x03) as usize + 2;
-                let e = SnmpReal::parse_u32(&i[1..ln]) as i32;
-                let mut v: f64 = SnmpReal::parse_u32(&i[ln..]).into();
+                // 00, 01, 10 - exponent in 1, 2, 3 octets,
+                // 11 - the next octet holds the length of the exponent
+                let (e_start, e_len) = match f & 0x03 {
+                    3 => {
+                        if i.len() < 2 {
+                            return Err(SnmpError::InvalidData);
+                        }
+                        (2usize, i[1] as usize)
+                    }
+                    n => (1usize, n as usize + 1),
+                };
+                // At least one octet of exponent and one of mantissa
+                if e_len == 0 || e_len > 8 || i.len() <= e_start + e_len {
+                    return Err(SnmpError::InvalidData);
+                }
+                // Exponent is a two's complement binary number
+                let e = i[e_start..e_start + e_len]
+                    .iter()
+                    .fold(if i[e_start] & 0x80 == 0 { 0i64 } else { -1i64 }, |acc, x| {
+                        (acc << 8) | (*x as i64)
+                    });
+                // 8.5.7.5: N is an unsigned binary number
+                let mantissa = &i[e_start + e_len..];
+                if mantissa.len() > 16 {
+                    return Err(SnmpError::InvalidData);
+                }
+                let n = mantissa.iter().fold(0u128, |acc, x| (acc << 8) | (*x as u128));
                 // 8.5.7.3: Bits 4 to 3 of the first contents octet shall
                 // encode the value of the binary scaling factor F
                 // as an unsigned binary integer.
-                match (f & 0x0c) >> 2 {
-                    1 => v *= 2.0,
-                    2 => v *= 4.0,
-                    3 => v *= 8.0,
-                    _ => return Err(SnmpError::InvalidData),
-                }
+                let scale = ((f & 0x0c) >> 2) as i64;
                 // 8.5.7.2: Bits 6 to 5 of the first contents octets
                 // shall encode the value of the base B' as follows:
                 // Bits6to5 => Base
@@ -60,13 +81,30 @@ impl<'a> BerDecoder<'a> for SnmpReal {
                 // 01 => base 8
                 // 10 => base 16
                 // 11 => Reserved for further editions of this Recommendation | International Standard.
-                let base: f64 = match f & 0x30 {
-                    0 => 2.0,
-                    0x10 => 8.0,
-                    0x20 => 16.0,
+                let bits_per_digit: i64 = match f & 0x30 {
+                    0 => 1,
+                    0x10 => 3,
+                    0x20 => 4,
                     _ => return Err(SnmpError::InvalidData),
                 };
-                v *= base.powi(e);
+                // M = S * N * 2^F, value = M * B^E = S * N * 2^(F + E * log2(B))
+                let exp2 = e.saturating_mul(bits_per_digit).saturating_add(scale);
+                let mut v = n as f64;
+                if v != 0.0 {
+                    if exp2 > 2200 {
+                        v = f64::INFINITY;
+                    } else if exp2 < -2300 {
+                        v = 0.0;
+                    } else {
+                        // Scale in steps to stay within the f64 exponent range
+                        let mut left = exp2;
+                        while left != 0 {
+                            let step = left.clamp(-1000, 1000);
+                            v *= 2.0f64.powi(step as i32);
+                            left -= step;
+                        }
+                    }
+                }
                 // 8.5.7.1: Bit 7 of the first contents octets
                 // shall be 1 if S is –1 and 0 otherwise.
                 if f & 0x40 == 0x40 {
@@ -115,16 +153,6 @@ impl<'a> BerDecoder<'a> for SnmpReal {
 impl SnmpReal {
     pub fn verif_value(&self) -> f64 {
         self.0
-    }
-}
-
-impl SnmpReal {
-    fn parse_u32(i: &[u8]) -> u32 {
-        let mut v = 0u32;
-        for &n in i.iter() {
-            v = (v << 8) | (n as u32);
-        }
-        v
     }
 }
 
